@@ -605,6 +605,15 @@ Fixpoint row_loop (cn : ptree -> res ptree) (rc : rowctx) (st : stack) (prev : o
       row_loop cn rc st' (Some c') rest'
   end.
 
+(* the attributes of the finished row: those of the original mrow on top of the global ones of what was parsed; an only
+   child that stands for the row keeps what it says itself (its id, notation, linethickness, form ...) *)
+Definition finish_attrs (parsed mrow : ptree) (merged : bool) : ptree :=
+  let r := add_attrs (set_attrs (attr_remove s_changed (pattrs parsed)) parsed) (pattrs mrow) in
+  if merged
+  then set_attrs (fold_left (fun a kv => attr_set (fst kv) (snd kv) a)
+                            (filter (fun kv => negb (str_eqb (fst kv) s_changed)) (pattrs parsed)) (pattrs r)) r
+  else r.
+
 Definition finish_row (mrow : ptree) (st : stack) : res ptree :=
   do st1 <- reduce (o_prio op_fencepost) st;
   match st1 with
@@ -614,7 +623,8 @@ Definition finish_row (mrow : ptree) (st : stack) : res ptree :=
                     | [only] => if ok_merge then only else mk_row (f_kids top)
                     | ks => mk_row ks
                     end in
-      Ok (set_ann None (add_attrs (set_attrs (attr_remove s_changed (pattrs parsed)) parsed) (pattrs mrow)))
+      let merged := match f_kids top with [only] => ok_merge | _ => false end in
+      Ok (set_ann None (finish_attrs parsed mrow merged))
   | [] => Panic 16
   | _ => Panic 17
   end.
